@@ -244,12 +244,20 @@ fn fit_event(run: i64, cls: &str, prec: u32, lattice: bool, x: &Rows, q: &Rows, 
     fit_event_off(run, cls, prec, lattice, x, q, k, mi, o, &[])
 }
 
+thread_local! {
+    /// exponent sh of the scaled offset family currently being projected (0 everywhere else)
+    static OFF_SHIFT: std::cell::Cell<i32> = std::cell::Cell::new(0);
+}
+
 /// Offset families: the library was given `x + off` and `q + off` (a common, exactly
 /// representable offset per column); the event carries the small rows `x`, `q` and the
 /// reported centroids shifted back by the same offset (c - off is an exact floating-point
 /// subtraction).  Nearest-centroid assignment and cluster means are equivariant under a
 /// common shift, so the specification decides the clauses on the small integers.
 fn fit_event_off(run: i64, cls: &str, prec: u32, lattice: bool, x: &Rows, q: &Rows, k: usize, mi: usize, o: &FitOut, off: &[f64]) -> Value {
+    // scaled offset families (seeded C12-u1): the library saw x * 2^-sh + off; the back-shifted values are
+    // multiplied by 2^sh again (exact), so the event still speaks about the small integers
+    let unscale: f64 = OFF_SHIFT.with(|c| (2.0f64).powi(c.get()));
     let n = x.len();
     let d = x[0].len();
     let q12 = Q::new(S_FIT);
@@ -269,7 +277,7 @@ fn fit_event_off(run: i64, cls: &str, prec: u32, lattice: bool, x: &Rows, q: &Ro
     let q_seen: Rows = if o.q_used.is_empty() {
         q.clone()
     } else {
-        o.q_used.iter().map(|r| r.iter().enumerate().map(|(j, &v)| v - off.get(j).copied().unwrap_or(0.0)).collect()).collect()
+        o.q_used.iter().map(|r| r.iter().enumerate().map(|(j, &v)| (v - off.get(j).copied().unwrap_or(0.0)) * unscale).collect()).collect()
     };
     let q = &q_seen;
     let q_all_int = q.iter().all(|r| r.iter().all(|&v| int_exact(v).is_some()));
@@ -277,7 +285,7 @@ fn fit_event_off(run: i64, cls: &str, prec: u32, lattice: bool, x: &Rows, q: &Ro
         let back: Rows = o
             .centroids
             .iter()
-            .map(|c| c.iter().enumerate().map(|(j, &v)| v - off.get(j).copied().unwrap_or(0.0)).collect())
+            .map(|c| c.iter().enumerate().map(|(j, &v)| (v - off.get(j).copied().unwrap_or(0.0)) * unscale).collect())
             .collect();
         let cfx = q12.m(&back);
         let c8 = q8.m(&back);
@@ -1067,14 +1075,21 @@ fn gen_fit_offset(out: &mut Out, run: &mut i64) {
         for _ in 0..8 {
             q.push((0..d).map(|_| r.gen_range(-4..=20) as f64).collect());
         }
-        let xs = shift(&x, &off);
-        let qs = shift(&q, &off);
+        // every third set: the lattice is also scaled down by 2^-sh (exact), so that the spread of the data is
+        // tiny relative to its offset (|off| / spacing up to 2.7e10) -- k-means is equivariant under both maps
+        let sh: i32 = if s % 3 == 1 { [3, 4][r.gen_range(0..2usize)] } else { 0 };
+        let g = (2.0f64).powi(-sh);
+        let scale = |m: &Rows| -> Rows { m.iter().map(|row| row.iter().map(|&v| v * g).collect()).collect() };
+        let xs = shift(&scale(&x), &off);
+        let qs = shift(&scale(&q), &off);
         for _ in 0..reps {
             let k = r.gen_range(2..=8usize.min(dist));
             let mi = MAX_ITERS[r.gen_range(0..MAX_ITERS.len())];
             *run += 1;
             let o = run_fit(64, &xs, &qs, k, mi);
+            OFF_SHIFT.with(|c| c.set(sh));
             out.emit(fit_event_off(*run, "offset", 64, true, &x, &q, k, mi, &o, &offf));
+            OFF_SHIFT.with(|c| c.set(0));
         }
     }
 }
